@@ -93,6 +93,9 @@ def run(chk: framework.Check):
             case, found_input=False)
     chk.extra["rule"] = ("random worlds x types x {valid, mutated, junk} payloads x {Converter dict/dict+forbid/tuple, BaseConverter dict/tuple}, "
                          "each structured in both validation modes; non-trivial = non-leaf type; distinct by canonical text")
+    # implementation-only extended stream (unions, NamedTuples, registry hooks, one-shot iterables)
+    from harness import ext
+    ext.run_c04(chk, 150 if chk.tier == "quick" else 1500)
     drv.close()
 
 
